@@ -504,6 +504,10 @@ pub fn guard(f: impl FnOnce() -> CaseResult) -> CaseResult {
 
 /// Silence the default panic printer (expected panics are part of several oracles).
 pub fn quiet_panics() {
+    // VERIF_LOUD_PANICS=1: keep the default hook (to read the message of a panic that aborts)
+    if std::env::var_os("VERIF_LOUD_PANICS").is_some() {
+        return;
+    }
     std::panic::set_hook(Box::new(|_| {}));
 }
 
